@@ -159,11 +159,21 @@ type model struct {
 	// caches (derived by linear scans, invalidated on every change)
 	sortedV int
 	sortedC []*entry
-	statsV  int
-	statsC  map[uint64]*storeStat
+	// sinfo: the per-store statistics that were last published into the store records
+	// (BasicCluster.UpdateStoreStatus), i.e. the model of what GetStore(id) reports
+	sinfo map[uint64]storeStat
 }
 
-func newModel() *model { return &model{version: 1} }
+func newModel() *model { return &model{version: 1, sinfo: map[uint64]storeStat{}} }
+
+// snapshot returns an independent copy of the state (entries are immutable and shared).
+func (m *model) snapshot() *model {
+	c := &model{version: 1, es: append([]*entry(nil), m.es...), sinfo: make(map[uint64]storeStat, len(m.sinfo))}
+	for k, v := range m.sinfo {
+		c.sinfo[k] = v
+	}
+	return c
+}
 
 func (m *model) get(id uint64) *entry {
 	for _, e := range m.es {
